@@ -989,6 +989,7 @@ type seqInfo struct {
 	index int
 	texts []string
 	modes []string
+	files []map[string][]byte // the context of every element (nil: the default sub-workflow files)
 }
 
 // execPrepareCase prepares the case with the real engine and records everything the monitors and `arcadrv prepare`
@@ -1104,8 +1105,12 @@ func execPrepareCase(pc *prepCase, caseID string, r *rng, ps *prepSession, seq *
 			// ... and when it reproduces: the same prefix of the sequence on another new executor gives the shared result again
 			again := prepResult{Verdict: "harness-error"}
 			if ps2, err := newPrepSession(); err == nil {
-				for _, t := range seq.texts[:seq.index] {
-					_ = realPrepareOn(ps2, t, allSubFiles(), stepIDs, nil)
+				for j, t := range seq.texts[:seq.index] {
+					ctx := allSubFiles()
+					if seq.files != nil && len(seq.files[j]) > 0 {
+						ctx = seq.files[j]
+					}
+					_ = realPrepareOn(ps2, t, ctx, stepIDs, nil)
 				}
 				again = realPrepareOn(ps2, text, files, stepIDs, nil)
 			}
